@@ -153,6 +153,8 @@ Definition get_element (t : td) (v : Q) : option (list elem) :=
 
 Inductive tdres := Val (q : Q) | Panic.
 
+Definition is_nil {A} (l : list A) : bool := match l with [] => true | _ => false end.
+
 Fixpoint walk (vals : nat -> Q) (fc dur : Q) (rest : list elem) : tdres :=
   match rest with
   | [] => Panic                           (* nil element dereferenced *)
@@ -160,7 +162,8 @@ Fixpoint walk (vals : nat -> Q) (fc dur : Q) (rest : list elem) : tdres :=
       let req := (1 - fc) * vals (e_expr e) in
       if Qeq_bool req 0 then Val dur else
       let can := (inject_Z (e_end e) - inject_Z (e_start e)) / req in
-      if Qle_bool 1 can then Val (dur + req) else
+      (* the last element has no successor: it is in force from its start on *)
+      if Qle_bool 1 can || is_nil rest' then Val (dur + req) else
       (* Qred: same rational, reduced representation (keeps the numbers small when the model is run) *)
       walk vals (Qred (fc + can * (1 - fc))) (Qred (dur + can * req)) rest'
   end.
@@ -175,7 +178,7 @@ Definition value_at_value (t : td) (vals : nat -> Q) (v : Q) : tdres :=
       if Qeq_bool d 0 then Val 0 else
       if Qle_bool d 0 then Panic else
       let fc := Qred ((inject_Z (e_end el) - v) / d) in
-      if Qle_bool 1 fc then Val d else
+      if Qle_bool 1 fc || is_nil rest then Val d else
       walk vals fc (Qred (fc * d)) rest
   end.
 
